@@ -15,7 +15,8 @@ EXTENDS Naturals, Sequences, FiniteSets, TLC
 
 CONSTANTS Objs,        \* object references
           Types,       \* load types
-          Loads,       \* Objs -> [Types -> "ok" | "err"]: uncached outcome of loading the object as a type
+          TypesOf,     \* Objs -> subset of Types: the types the calls load this object as
+          Loads,       \* Objs -> [TypesOf -> "ok" | "err"]: uncached outcome of loading the object as a type
           Streams,     \* stream references (filter chain = normal prefix + image suffix)
           MaxCalls,
           ObjCacheOpts, StmCacheOpts,   \* subsets of BOOLEAN
@@ -112,7 +113,7 @@ Init ==
   /\ path = <<>>
 
 Next ==
-  \/ \E o \in Objs, t \in Types : GetAs(o, t)
+  \/ \E o \in Objs : \E t \in TypesOf[o] : GetAs(o, t)
   \/ \E o \in Objs : Resolve(o)
   \/ \E s \in Streams : Data(s) \/ RawImage(s) \/ Image(s)
 
